@@ -20,6 +20,8 @@ import (
 
 	"pgregory.net/rapid"
 
+	"github.com/charmbracelet/log"
+
 	"github.com/flamego/flamego"
 	"github.com/flamego/flamego/verifharness/internal/evid"
 	"github.com/flamego/flamego/verifharness/internal/rt"
@@ -63,6 +65,8 @@ type Req struct {
 	// Scratch: the first handler of the route notes the request's token in the
 	// request's own parameter map (Params() hands out the map of this request).
 	Scratch bool `json:"scratch,omitempty"`
+	// OwnLog: a middleware in front maps a request-scoped *log.Logger for this request.
+	OwnLog bool `json:"own_logger,omitempty"`
 }
 
 type Round struct {
@@ -90,6 +94,16 @@ func (s *svc) Name() string { return s.name }
 func build(r Round) *flamego.Flame {
 	f := flamego.NewWithLogger(io.Discard)
 	f.AutoHead(true) // every GET route below answers HEAD too
+	// some requests bring a logger of their own (request scope): whoever takes a
+	// *log.Logger by injection during such a request - the Logger middleware
+	// first of all - must get that one
+	f.Use(func(c flamego.Context) {
+		if tok := c.Request().Header.Get("X-Own-Log"); tok != "" {
+			buf := &lockedBuf{}
+			ownLogs.Store(tok, buf)
+			c.Map(log.New(buf))
+		}
+	})
 	f.Use(flamego.Logger(), flamego.Recovery(), flamego.Renderer(flamego.RenderOptions{JSONIndent: " "}))
 	f.Use(flamego.Static(flamego.StaticOptions{Directory: assetsDir, Prefix: "/assets", SetETag: true}))
 	f.Map(&svc{"svc-A"})
@@ -179,9 +193,30 @@ func build(r Round) *flamego.Flame {
 	return f
 }
 
+// ownLogs: token -> what was written to the logger that request brought along.
+var ownLogs sync.Map
+
+type lockedBuf struct {
+	mu sync.Mutex
+	b  strings.Builder
+}
+
+func (l *lockedBuf) Write(p []byte) (int, error) {
+	l.mu.Lock()
+	defer l.mu.Unlock()
+	return l.b.Write(p)
+}
+
+func (l *lockedBuf) String() string {
+	l.mu.Lock()
+	defer l.mu.Unlock()
+	return l.b.String()
+}
+
 type resp struct {
 	status  int
 	body    string
+	ownLog  string // "started=<n> completed=<n>" for a request that brought its own logger
 	headers string // every response header, sorted
 	escaped string // a panic that left ServeHTTP
 }
@@ -194,6 +229,9 @@ func serve(f *flamego.Flame, q Req) (r resp) {
 	}
 	if q.Scratch {
 		h.Set("X-Scratch", "1")
+	}
+	if q.OwnLog {
+		h.Set("X-Own-Log", q.Token)
 	}
 	spy := rt.NewSpy()
 	defer func() {
@@ -217,7 +255,16 @@ func serve(f *flamego.Flame, q Req) (r resp) {
 			body = body[i : i+j]
 		}
 	}
-	return resp{status: spy.Status(), body: body, headers: strings.Join(hs, "\n")}
+	r = resp{status: spy.Status(), body: body, headers: strings.Join(hs, "\n")}
+	if q.OwnLog {
+		if v, ok := ownLogs.LoadAndDelete(q.Token); ok {
+			text := v.(*lockedBuf).String()
+			r.ownLog = fmt.Sprintf("started=%d completed=%d", strings.Count(text, "Started"), strings.Count(text, "Completed"))
+		} else {
+			r.ownLog = "no logger registered"
+		}
+	}
+	return r
 }
 
 func clip(s string) string {
@@ -272,6 +319,7 @@ func checkRound(r Round) (out evid.Outcome) {
 				got := serve(b, q)
 				got.body = strings.ReplaceAll(got.body, uniq, r.Pool[i].Token)
 				got.headers = strings.ReplaceAll(got.headers, uniq, r.Pool[i].Token)
+				got.headers = strings.ReplaceAll(got.headers, uniq, r.Pool[i].Token)
 				if got != want[i] {
 					mu.Lock()
 					bads = append(bads, bad{g, i, got})
@@ -288,8 +336,8 @@ func checkRound(r Round) (out evid.Outcome) {
 	}
 	if len(bads) > 0 {
 		x := bads[0]
-		return evid.Fail("isolation", "goroutine %d, request %+v: concurrent response %d %q (headers %q, escaped panic %q) differs from the response when served alone %d %q (headers %q) (%d of %d responses differ)",
-			x.g, r.Pool[x.i], x.got.status, clip(x.got.body), x.got.headers, x.got.escaped, want[x.i].status, clip(want[x.i].body), want[x.i].headers, len(bads), out.Sub)
+		return evid.Fail("isolation", "goroutine %d, request %+v: concurrent response %d %q (headers %q, own log %q, escaped panic %q) differs from the response when served alone %d %q (headers %q) (%d of %d responses differ)",
+			x.g, r.Pool[x.i], x.got.status, clip(x.got.body), x.got.headers, x.got.ownLog, x.got.escaped, want[x.i].status, clip(want[x.i].body), want[x.i].headers, len(bads), out.Sub)
 	}
 	// classification
 	kinds := map[string]bool{}
@@ -385,6 +433,7 @@ func genReq(t *rapid.T, n int) Req {
 		q.P = "/users/" + s()
 	}
 	q.Scratch = rapid.IntRange(0, 3).Draw(t, "scratch") == 0
+	q.OwnLog = rapid.IntRange(0, 3).Draw(t, "ownlog") == 0
 	if q.M == "GET" && rapid.IntRange(0, 5).Draw(t, "head") == 0 {
 		q.M = "HEAD"
 	}
